@@ -516,6 +516,18 @@ def r7(ctx):
         rs = [r for r in walk_shallow(fn) if isinstance(r, ast.Raise) and r.exc is not None]
         if rs:
             raisers[name] = {norm(r.exc.func) if isinstance(r.exc, ast.Call) else norm(r.exc) for r in rs}
+    # implicit refusals: a code table subscripted with a header field (4 bits: 0..15) that has fewer entries raises IndexError
+    for name, fn in am.functions.items():
+        if not name.startswith("decode_max_") or len(fn.args.args) != 1:
+            continue
+        par0 = fn.args.args[0].arg
+        for sub_ in [x for x in walk_shallow(fn) if isinstance(x, ast.Subscript) and isinstance(x.slice, ast.Name) and x.slice.id == par0 and isinstance(x.value, ast.Name)]:
+            tbl = prog.try_const(am, sub_.value)
+            width = 16 if "apdu_length" in name else 8
+            if isinstance(tbl, (list, tuple)) and len(tbl) < width:
+                raisers.setdefault(name, set()).add("IndexError")
+            elif isinstance(tbl, dict) and not all(k_ in tbl for k_ in range(width)):
+                raisers.setdefault(name, set()).add("KeyError")
     if "decode_max_apdu_length_accepted" not in raisers:
         raise ShapeError("apdu.decode_max_apdu_length_accepted: no refusal found")
     n = 0
